@@ -229,3 +229,28 @@ Proof.
   pose proof (runs_bound_lemma _ _ _ _ _ _ Hr) as Hl. change (runs_allowed false k) with 1%nat in Hl.
   rewrite (sum_zero answers _ Hz) in Hb. lia.
 Qed.
+
+(* ---- the gate's input: a batch is idempotent exactly when every entry is ---------------------------- *)
+Lemma batch_idempotent_spec es : batch_idempotent es = true <-> Forall (fun e => e = true) es.
+Proof.
+  induction es as [|e es IH]; simpl; [split; auto|].
+  destruct e; simpl.
+  - rewrite IH. split; [intros H; constructor; auto | intros H; inversion H; auto].
+  - split; [discriminate | intros H; inversion H; discriminate].
+Qed.
+
+Lemma marked_not_speculated_lemma p src k sh ls s :
+  match src with
+  | IBatch es => In false es
+  | IQuery d ov => ov = Some false \/ (ov = None /\ d = false)
+  end ->
+  run_lts p (init (is_idempotent src) k sh) ls = Some s ->
+  (length (g_th s) <= 1)%nat /\ g_chan s = None /\ g_first s = None.
+Proof.
+  intros Hsrc Hr. assert (E : is_idempotent src = false).
+  { destruct src as [es|d ov]; simpl.
+    - destruct (batch_idempotent es) eqn:Eb; [|reflexivity].
+      apply batch_idempotent_spec in Eb. rewrite Forall_forall in Eb. specialize (Eb false Hsrc). discriminate.
+    - destruct Hsrc as [H|[H1 H2]]; subst; reflexivity. }
+  rewrite E in Hr. exact (non_idempotent_not_speculated_lemma _ _ _ _ _ Hr).
+Qed.
